@@ -187,7 +187,7 @@ def subsets {α} : List α → List (List α)
 def mkD (on : List String) : Model.ExecStatic.Defects :=
   { unionCondIgnored := on.contains "u", skipIgnoresVarDefault := on.contains "s",
     resolverErrPropagates := on.contains "r", listItemPathOverwrite := on.contains "l",
-    ifaceErrNoPath := on.contains "i" }
+    ifaceErrNoPath := on.contains "i", mergeKeepsPartialOnNull := on.contains "m" }
 
 structure ModelOut where
   plain : Resp
@@ -233,7 +233,7 @@ def judge (known : List String) (case impl : String) : JudgeOut :=
           fast := mode = "fast", fuel := Spec.Exec.fuelBound doc }
       let pinnedX : XDefects := { plainPathSkipsLookup := known.contains findingId, itemTypeAlwaysNonNull := true }
       let spec := modelRun (mkD []) {} req n
-      let mK := modelRun (mkD ["u", "s", "r", "l", "i"]) pinnedX req n
+      let mK := modelRun (mkD ["u", "s", "r", "l", "i", "m"]) pinnedX req n
       match out? impl with
       | none => .viol (showModel mK) "unreadable implementation output"
       | some o =>
@@ -246,8 +246,8 @@ def judge (known : List String) (case impl : String) : JudgeOut :=
             { pinnedX with plainPathSkipsLookup := !pinnedX.plainPathSkipsLookup },
             { plainPathSkipsLookup := !pinnedX.plainPathSkipsLookup, itemTypeAlwaysNonNull := false }]
           let cfgs : List (XDefects × List String) :=
-            xs.flatMap (fun X => ([[], ["u", "s", "r", "l", "i"]] ++
-              (subsets ["u", "s", "r", "l", "i"]).filter (fun on => on.length ≠ 0 && on.length ≠ 5)).map (fun on => (X, on)))
+            xs.flatMap (fun X => ([[], ["u", "s", "r", "l", "i", "m"]] ++
+              (subsets ["u", "s", "r", "l", "i", "m"]).filter (fun on => on.length ≠ 0 && on.length ≠ 6)).map (fun on => (X, on)))
           let hit := cfgs.find? (fun c =>
             let m := modelRun (mkD c.2) c.1 req n
             agrees m o && consistent (mkD c.2) req m)
